@@ -204,13 +204,25 @@ def classify_line(code, lineno, text):
 _probe = None
 
 
+class _NoProbe:
+    def arm(self):
+        pass
+
+    def labels(self):
+        return ()
+
+
 def probe():
+    """Source-text line probe of the construction arms: evidence only; absent if the code moved."""
     global _probe
     if _probe is None:
-        from catii import iindex
+        try:
+            from catii import iindex
 
-        _probe = monitors.LineProbe([iindex.__dict__["from_array"]], classify_line)
-        _probe.install()
+            _probe = monitors.LineProbe([iindex.__dict__["from_array"]], classify_line)
+            _probe.install()
+        except Exception:
+            _probe = _NoProbe()
     return _probe
 
 
